@@ -32,6 +32,7 @@ func genWireCase(t *rapid.T, o gen.MsgOpts, free bool) (wireCase, *gen.Builder) 
 	b := &gen.Builder{T: t, Entropy: rapid.SliceOfN(rapid.Byte(), 4, 4).Draw(t, "entropy")}
 	if free {
 		b.Ch = &gen.RChooser{T: t, Free: true}
+		b.PadProt, b.PadHuge = true, o.HugeLens
 	}
 	built := b.Build(&spec)
 	return wireCase{Spec: spec, Wire: built.Wire}, b
@@ -125,6 +126,9 @@ func classifyWire(c *wireCase, b *gen.Builder) (nontrivial bool) {
 		if b.EmptyA0 > 0 {
 			stats.Class("choice/empty-protected-a0")
 			nontrivial = true
+		}
+		if b.Padded > 0 {
+			stats.Class("protected-len/exactly-on-head-boundary")
 		}
 	}
 	if env, err := refcose.ParseEnv(c.Spec.Kind, c.Wire); err == nil {
